@@ -22,6 +22,12 @@ What is generated (every run, from /repo's current source), fail-closed (`Unsupp
  * `adjGen osh : Expr α → Expr α` — Conj / Add / Compose / Hstack / Vstack / Diag `_adjoint_linop` rules.
  * `adjOpaque : Opaque α → Opaque α` — FFT↔IFFT, Wavelet↔InverseWavelet, ConvolveData(+Adjoint),
    ConvolveFilter(+Adjoint), NUFFT↔NUFFTAdjoint: class and arguments of the returned operator.
+ * `applyGen : Leaf α → Option Prim` — for the twelve classes whose `_apply` is one call on `input`
+   (`return input`, `input.reshape(..)`, `input.transpose(..)`, `input[..]`, `util.resize/flip/circshift/downsample/
+   upsample(input, ..)` with the arguments bound by the util function's signature read from util.py,
+   `xp.asarray(xp.sum(input, axis=..))`, `block.array_to_blocks`, `interp.interpolate`): which primitive with which
+   attributes.  `with device:` blocks and the assignments `device = backend.get_device(input)`, `xp = device.xp`,
+   `x = backend.to_device(self.x, device)` are looked through; anything else is `Unsupported`.
  * `finiteDifference negOne ishape axes : Option (Expr α)` — the tree `FiniteDifference` builds
    (Identity, Circshift, Reshape, `-`, `*`, Vstack(axis=0)), `axes` being the result of `util._normalize_axes`.
 
@@ -584,6 +590,131 @@ def _finite_difference(tree):
         "  C01.vstackList (some %d) (axes.map fun i =>\n    %s)\n" % (axis, elem))
 
 
+# ---- `_apply` bodies ---------------------------------------------------------------------------------
+APPLY_CLASSES = ["Identity", "Reshape", "Transpose", "Resize", "Flip", "Circshift", "Downsample", "Upsample", "Sum",
+                 "Slice", "ArrayToBlocks", "Interpolate"]
+UTIL_PRIMS = {"resize": ("resize", ["oshape", "ishift", "oshift"]), "flip": ("flip", ["axes"]),
+              "circshift": ("circshift", ["shifts", "axes"]), "downsample": ("downsample", ["factors", "shift"]),
+              "upsample": ("upsample", ["oshape", "factors", "shift"])}
+
+
+def _apply_return(cname, fn):
+    """the single `return` of an `_apply` body, looking through device plumbing; aliases {name: self.attr}"""
+    if [a.arg for a in fn.args.args] != ["self", "input"]:
+        raise U("%s._apply signature" % cname)
+    rets, alias = [], {}
+
+    def walk(stmts):
+        for st in stmts:
+            if isinstance(st, ast.Expr) and isinstance(st.value, ast.Constant):
+                continue
+            if isinstance(st, ast.Return):
+                rets.append(st.value)
+            elif isinstance(st, ast.With):
+                for it in st.items:
+                    if it.optional_vars is not None or _src(it.context_expr) not in ("device", "backend.get_device(input)"):
+                        raise U("%s._apply: with %s" % (cname, _src(it.context_expr)))
+                walk(st.body)
+            elif isinstance(st, ast.Assign) and len(st.targets) == 1 and isinstance(st.targets[0], ast.Name):
+                t, v = st.targets[0].id, _src(st.value)
+                if (t, v) in (("device", "backend.get_device(input)"), ("xp", "device.xp")):
+                    continue
+                if isinstance(st.value, ast.Call) and _src(st.value.func) == "backend.to_device" and len(st.value.args) == 2 \
+                        and _src(st.value.args[1]) == "device" and isinstance(st.value.args[0], ast.Attribute) \
+                        and _src(st.value.args[0].value) == "self":
+                    alias[t] = st.value.args[0]
+                    continue
+                raise U("%s._apply: statement %s" % (cname, _src(st)))
+            else:
+                raise U("%s._apply: statement %s" % (cname, _src(st)))
+
+    walk(fn.body)
+    if len(rets) != 1 or rets[0] is None:
+        raise U("%s._apply: expected exactly one return" % cname)
+    return rets[0], alias
+
+
+def _apply_arm(tree, util_tree, classes, cname):
+    cls = classes[cname]
+    ret, alias = _apply_return(cname, T.find_function(tree, cname + "._apply"))
+    tr = _Tr(classes, cname)
+    if cname == "Transpose":
+        # self.axes: None stays None, a tuple is normalised in __init__ (source pinned as for _adjoint_linop)
+        stmts = [_src(x) for x in cls.init.body]
+        want = "if axes is not None:\n    axes = tuple((a % len(ishape) for a in axes))"
+        if want not in stmts or "self.axes = axes" not in stmts or stmts.index(want) > stmts.index("self.axes = axes"):
+            raise U("Transpose.__init__: normalisation of axes changed")
+        orig = tr.attr
+        tr.attr = lambda a: ["(axes.map fun a => C01.normAxes a ishape.length)"] if a == "axes" else orig(a)
+    for name, node in alias.items():
+        tr.env[name] = tr.tr(node)
+
+    def is_input(e):
+        return isinstance(e, ast.Name) and e.id == "input"
+
+    def one(e):
+        r = tr.tr(e)
+        if len(r) != 1:
+            raise U("%s._apply: argument %s" % (cname, _src(e)))
+        return r[0]
+
+    if is_input(ret):
+        return ".ret"
+    if isinstance(ret, ast.Subscript) and is_input(ret.value):
+        return ".getitem %s" % one(ret.slice)
+    if isinstance(ret, ast.Call) and isinstance(ret.func, ast.Attribute) and is_input(ret.func.value) \
+            and ret.func.attr in ("reshape", "transpose") and len(ret.args) == 1 and not ret.keywords:
+        return ".%s %s" % (ret.func.attr, one(ret.args[0]))
+    if isinstance(ret, ast.Call) and _src(ret.func) == "xp.asarray" and len(ret.args) == 1 and not ret.keywords:
+        inner = ret.args[0]
+        if isinstance(inner, ast.Call) and _src(inner.func) == "xp.sum" and len(inner.args) == 1 and is_input(inner.args[0]) \
+                and [k.arg for k in inner.keywords] == ["axis"]:
+            return ".sum %s" % one(inner.keywords[0].value)
+    if isinstance(ret, ast.Call) and isinstance(ret.func, ast.Attribute) and isinstance(ret.func.value, ast.Name) \
+            and ret.args and is_input(ret.args[0]):
+        mod, fname = ret.func.value.id, ret.func.attr
+        if mod == "util" and fname in UTIL_PRIMS:
+            lean, want_params = UTIL_PRIMS[fname]
+            ufn = T.find_function(util_tree, fname)
+            params = [a.arg for a in ufn.args.args]
+            if params != ["input"] + want_params:
+                raise U("util.%s signature %s" % (fname, params))
+            if len(ret.args) > len(params):
+                raise U("%s._apply: too many arguments" % cname)
+            bound = dict(zip(params, ret.args))
+            for k in ret.keywords:
+                if k.arg not in params or k.arg in bound:
+                    raise U("%s._apply: keyword %s" % (cname, k.arg))
+                bound[k.arg] = k.value
+            missing = [q for q in want_params if q not in bound]
+            if missing:
+                raise U("%s._apply: %s of util.%s left to its default" % (cname, missing, fname))
+            return ".%s %s" % (lean, " ".join(one(bound[q]) for q in want_params))
+        if mod == "block" and fname == "array_to_blocks" and len(ret.args) == 3 and not ret.keywords:
+            return ".arrayToBlocks %s %s" % (one(ret.args[1]), one(ret.args[2]))
+        if mod == "interp" and fname == "interpolate" and len(ret.args) == 2 and \
+                sorted(k.arg for k in ret.keywords) == ["kernel", "param", "width"]:
+            kw = dict((k.arg, k.value) for k in ret.keywords)
+            if tr.tr(kw["kernel"]) != []:
+                raise U("Interpolate._apply: kernel argument %s" % _src(kw["kernel"]))
+            c = tr.tr(ret.args[1])
+            if len(c) != 2:
+                raise U("Interpolate._apply: coord argument")
+            return ".interpolate %s %s %s %s" % (c[0], c[1], one(kw["width"]), one(kw["param"]))
+    raise U("%s._apply: return %s" % (cname, _src(ret)))
+
+
+def _apply_table(tree, classes):
+    util_tree = G._parse("sigpy/util.py")
+    arms = []
+    for cname in APPLY_CLASSES:
+        src = " ; ".join(_src(x) for x in T.find_function(tree, cname + "._apply").body).replace("\n", " ")
+        arms.append("  -- %s._apply: %s\n  | %s => some (%s)" % (cname, src[:150], _pattern(cname),
+                                                              _apply_arm(tree, util_tree, classes, cname)))
+    return ("/-- generated from the `_apply` bodies that are a single call on `input`: the primitive and its arguments -/\n"
+            "def applyGen {α : Type} : Leaf α → Option Prim\n" + "\n".join(arms) + "\n  | _ => none\n")
+
+
 def gen_linop_adjoint(ctx=None):
     tree = G._parse("sigpy/linop.py")
     classes = dict((c, _Cls(tree, c)) for c in LEAF)
@@ -618,6 +749,7 @@ def gen_linop_adjoint(ctx=None):
     out.append("/-- generated from the `_adjoint_linop` methods of the classes without an exact entry model: class and\n"
                "    constructor arguments of the operator returned -/\n"
                "def adjOpaque {α : Type} : Opaque α → Opaque α\n" + "\n".join(_opaque(tree)) + "\n")
+    out.append(_apply_table(tree, classes))
     out.append(_finite_difference(tree))
     out.append("end SigpyVerif.Gen.LinopAdjoint\n")
     return "\n".join(out)
